@@ -7,6 +7,7 @@
 pub mod shim { include!("../common_shim.rs"); }
 pub use shim::QueryError;
 macro_rules! ensure { ($c:expr, $($t:tt)*) => { if !$c { return Err(QueryError::FatalError); } }; }
+macro_rules! info { ($($t:tt)*) => {}; }
 pub mod engine { pub mod data_types {
     pub use crate::tys::*;
     pub type of64 = ordered_float::OrderedFloat<f64>;
@@ -26,16 +27,27 @@ use std::marker::PhantomData;
 // A-astbuilder: a generated planner method creates the node named after it from its arguments, in order, and returns the
 // node's output buffer.  The stand-in records which method was called with which arguments.
 #[derive(Clone, Copy, PartialEq, Debug)]
-pub enum Node { None, FuseNulls { input: usize }, TopN { ranking: usize, n: usize, desc: bool }, Indices { of: usize }, SortBy { ranking: usize, indices: usize, desc: bool, stable: bool }, NullVec { len: usize }, NullVecLike { plan: usize, source_type: u8 }, Filter { plan: usize, by: usize }, NullableFilter { plan: usize, by: usize }, Select { plan: usize, by: usize }, Empty }
-pub struct QueryPlanner { pub last: Node, pub next: usize, pub fused: usize }
+pub enum Node { None, Other, FuseNulls { input: usize }, TopN { ranking: usize, n: usize, desc: bool }, Indices { of: usize }, SortBy { ranking: usize, indices: usize, desc: bool, stable: bool }, NullVec { len: usize }, NullVecLike { plan: usize, source_type: u8 }, Filter { plan: usize, by: usize }, NullableFilter { plan: usize, by: usize }, Select { plan: usize, by: usize }, Empty }
+// `applied`: how many row filters (Filter / NullableFilter / Select) lie between the partition's rows and a buffer; `inp` is a buffer
+// produced elsewhere (compile_expr's result) with its own count
+pub struct QueryPlanner { pub last: Node, pub next: usize, pub fused: usize, pub next0: usize, pub applied: [u8; 8], pub inp: usize, pub inp_applied: u8 }
 pub struct Nfq { pub order_by: Vec<()> }
 impl QueryPlanner {
-    fn out(&mut self, n: Node, tag: EncodingType) -> TypedBufferRef { self.last = n; self.next += 1; TypedBufferRef::new(BufferRef { i: self.next, name: "out", t: PhantomData }, tag) }
+    pub fn new(next0: usize) -> QueryPlanner { QueryPlanner { last: Node::None, next: next0, fused: 0, next0, applied: [0; 8], inp: usize::MAX, inp_applied: 0 } }
+    pub fn applied_to(&self, id: usize) -> u8 { if id == self.inp { self.inp_applied } else if id > self.next0 && id <= self.next && id - self.next0 <= 8 { self.applied[id - self.next0 - 1] } else { 0 } }
+    fn out_d(&mut self, n: Node, tag: EncodingType, d: u8) -> TypedBufferRef { self.last = n; self.next += 1; let k = self.next - self.next0 - 1; if k < 8 { self.applied[k] = d; } TypedBufferRef::new(BufferRef { i: self.next, name: "out", t: PhantomData }, tag) }
+    fn out(&mut self, n: Node, tag: EncodingType) -> TypedBufferRef { self.out_d(n, tag, 0) }
+    // value-level nodes keep the row set of their input
+    pub fn cast(&mut self, input: TypedBufferRef, t: EncodingType) -> TypedBufferRef { let d = self.applied_to(input.buffer.i); self.out_d(Node::Other, t, d) }
+    pub fn fuse_int_nulls(&mut self, _offset: i64, nullable: TypedBufferRef) -> TypedBufferRef { let d = self.applied_to(nullable.buffer.i); let t = nullable.tag.non_nullable(); self.out_d(Node::Other, t, d) }
+    pub fn add(&mut self, lhs: TypedBufferRef, rhs: TypedBufferRef) -> TypedBufferRef { let d = self.applied_to(lhs.buffer.i); self.out_d(Node::Other, EncodingType::I64, d) }
+    pub fn scalar_i64(&mut self, _v: i64, _hide: bool) -> BufferRef<Scalar<i64>> { self.out_d(Node::Other, EncodingType::ScalarI64, 0).scalar_i64().unwrap() }
+    pub fn constant_expand(&mut self, _v: i64, _len: usize, t: EncodingType) -> TypedBufferRef { self.out_d(Node::Other, t, 0) }
     pub fn null_vec(&mut self, len: usize, nulls: EncodingType) -> TypedBufferRef { self.out(Node::NullVec { len }, nulls) }
     pub fn null_vec_like(&mut self, plan: TypedBufferRef, source_type: u8, nulls: EncodingType) -> TypedBufferRef { self.out(Node::NullVecLike { plan: plan.buffer.i, source_type }, nulls) }
-    pub fn filter(&mut self, plan: TypedBufferRef, select: BufferRef<u8>) -> TypedBufferRef { self.out(Node::Filter { plan: plan.buffer.i, by: select.i }, plan.tag) }
-    pub fn nullable_filter(&mut self, plan: TypedBufferRef, select: BufferRef<Nullable<u8>>) -> TypedBufferRef { self.out(Node::NullableFilter { plan: plan.buffer.i, by: select.i }, plan.tag) }
-    pub fn select(&mut self, plan: TypedBufferRef, indices: BufferRef<usize>) -> TypedBufferRef { self.out(Node::Select { plan: plan.buffer.i, by: indices.i }, plan.tag) }
+    pub fn filter(&mut self, plan: TypedBufferRef, select: BufferRef<u8>) -> TypedBufferRef { let d = self.applied_to(plan.buffer.i) + 1; self.out_d(Node::Filter { plan: plan.buffer.i, by: select.i }, plan.tag, d) }
+    pub fn nullable_filter(&mut self, plan: TypedBufferRef, select: BufferRef<Nullable<u8>>) -> TypedBufferRef { let d = self.applied_to(plan.buffer.i) + 1; self.out_d(Node::NullableFilter { plan: plan.buffer.i, by: select.i }, plan.tag, d) }
+    pub fn select(&mut self, plan: TypedBufferRef, indices: BufferRef<usize>) -> TypedBufferRef { let d = self.applied_to(plan.buffer.i) + 1; self.out_d(Node::Select { plan: plan.buffer.i, by: indices.i }, plan.tag, d) }
     pub fn empty(&mut self, t: EncodingType) -> TypedBufferRef { self.out(Node::Empty, t) }
     // fuse_nulls: the generated method derives the output type with EncodingType::nullable_fused() (#[output(t = "base=nullable;null=_fused")])
     pub fn fuse_nulls(&mut self, nullable: TypedBufferRef) -> TypedBufferRef { let t = nullable.tag.nullable_fused(); self.fused += 1; self.out(Node::FuseNulls { input: nullable.buffer.i }, t) }
@@ -66,7 +78,7 @@ mod proofs {
     fn missing_column_rows_match_filter() {
         let filter = any_filter();
         let column_len: usize = kani::any();
-        let mut planner = QueryPlanner { last: Node::None, next: usize::MAX / 2, fused: 0 };
+        let mut planner = QueryPlanner::new(usize::MAX / 2);
         let col = TypedBufferRef::new(BufferRef { i: kani::any(), name: "c", t: PhantomData }, EncodingType::I64);
         let real = filter.apply_filter(&mut planner, col);
         let real_node = planner.last;
@@ -128,7 +140,7 @@ mod proofs {
         let this = Nfq { order_by: if keys == 1 { vec![()] } else { vec![(), ()] } };
         let (limit, len): (usize, usize) = (kani::any(), kani::any());
         let desc: bool = kani::any();
-        let mut planner = QueryPlanner { last: Node::None, next: usize::MAX / 2, fused: 0 };
+        let mut planner = QueryPlanner::new(usize::MAX / 2);
         kani::cover!(ranking.tag == EncodingType::NullableU8 && limit < len / 2 && keys == 1, "vacuity: small LIMIT on a narrow nullable key");
         let out = order_by_indices(&this, &mut planner, ranking, limit, 0..len, &desc, None);
         match planner.last {
@@ -136,6 +148,35 @@ mod proofs {
             Node::SortBy { ranking: r, desc: d, stable, .. } => assert!(r == ranking.buffer.i && d == desc && stable, "[full-sort] otherwise the key is sorted (stably) in the requested direction"),
             Node::Indices { of } => assert!(ranking.is_constant() && of == ranking.buffer.i, "[constant-key] a constant key leaves the row order alone"),
             _ => assert!(false, "[some-plan] a sort plan is produced"),
+        }
+    }
+
+    // GROUP BY with several keys under a WHERE clause: every field of the packed key is filtered exactly once - the key of
+    // output row r must come from the same table row as the aggregated value of row r (C04: "grouping key construction with
+    // filter applied once")
+    #[kani::proof]
+    fn key_field_is_filtered_once() {
+        let filter = any_filter();
+        kani::assume(!matches!(filter, Filter::Null));
+        let filtered = !matches!(filter, Filter::None);
+        let mut planner = QueryPlanner::new(1000);
+        let tags = [EncodingType::U8, EncodingType::I64, EncodingType::NullableU8, EncodingType::NullableI64, EncodingType::Null];
+        let k: usize = kani::any();
+        kani::assume(k < 5);
+        // compile_expr's result: a column (or expression over columns) that the filter has already been applied to;
+        // a column missing from the partition (type Null) has no rows of its own yet
+        let query_plan = TypedBufferRef::new(BufferRef { i: 7, name: "key", t: PhantomData }, tags[k]);
+        planner.inp = 7;
+        planner.inp_applied = if filtered && k != 4 { 1 } else { 0 };
+        let (min, subtract_offset): (i64, bool) = (kani::any(), kani::any());
+        kani::assume(min > i64::MIN / 2 && min < i64::MAX / 2);
+        // a missing column has the range (0, 0): no offset is subtracted from it (try_bitpacking: subtract_offset needs min < 0,
+        // a nullable type or a range far from zero)
+        kani::assume(k != 4 || (!subtract_offset && min == 0));
+        let r = key_field_plan(query_plan, min, subtract_offset, filter, kani::any(), &mut planner);
+        match r {
+            Ok(field) => assert!(planner.applied_to(field.i) == (if filtered { 1 } else { 0 }), "[filtered-once] a key field is the filtered column, not the filtered column filtered again (else keys and aggregated values come from different rows)"),
+            Err(_) => {}
         }
     }
 
